@@ -50,6 +50,7 @@ func genTGCase(rng *rand.Rand, idx int) TGCase {
 }
 
 func phaseTG(r *mon.Run) {
+	g := &guard{r: r, phase: "tg"}
 	n := r.Pick(150, 1500)
 	par := 8
 	var wg sync.WaitGroup
@@ -64,10 +65,11 @@ func phaseTG(r *mon.Run) {
 		go func() {
 			defer wg.Done()
 			defer func() { <-sem }()
-			runTGCase(r, c)
+			g.run(func() { runTGCase(r, c) })
 		}()
 	}
 	wg.Wait()
+	g.done()
 	// thread-group goroutines (WithContext watchers) of this phase must be gone
 	tgOnly := func(g limitlab.Goroutine) bool {
 		return !g.Has("coreutils/threadgroup.") || g.Has("coreutils/syncer.") || g.Has("coreutils/rhp/") || g.Has("coreutils/wallet.")
